@@ -109,8 +109,11 @@ class Header(_Header):
             self.length = packet
 
         else:
-            # indeterminate packet length
+            # indeterminate packet length: this packet is everything up to the end of the input.  Its length is
+            # known now, and it is written back with a definite one - whatever is put behind a packet of
+            # indeterminate length (a signature added to the message) would become part of it
             self.length = len(packet)
+            self._llen = 1
 
 
 class VersionedHeader(Header):
